@@ -425,3 +425,44 @@ def g_qshift_pr_symbolic(table, tol=1e-9, single_reflection=True, perturb=None):
     hi = CT.COLD(it, x, F_['h1b'], F_['h1a'], True, 'symmetric')
     y = t_bin('+', CT.COLI(it, lo, F_['g0b'], F_['g0a'], False, 'symmetric'), CT.COLI(it, hi, F_['g1b'], F_['g1a'], True, 'symmetric'))
     return verify.value_equal('LEMMA/qshift-PR-1d[%s]' % table, 'LEMMA', y, x, c.pc, SIZES, tol=tol), {'m': m}
+
+
+def g_qshift_pr_piece(table, kind, k, tol=1e-9, canary=False):
+    """one piece of the q-shift PR lemma (concrete taps, symbolic image length 4H >= 2m), restricted to output rows
+       kind='interior': P = k (mod 4), 2m <= P < 4H - 2m  (no reflection is reachable)
+       kind='left'    : P = k                              (0 <= k < 2m)
+       kind='right'   : P = 4H - k                         (1 <= k <= 2m)
+       kind='cover'   : the pieces cover every row 0 <= P < 4H
+    Splitting the single query of g_qshift_pr_symbolic this way keeps every SMT query small (the whole-query cost grows
+    much faster than the filter length)."""
+    from . import groups_tables as T
+    t = T.load(table)
+    f = {k_: T.frac(t[k_]) for k_ in t if not k_.startswith('__') and k_ != 'param'}
+    m = len(f['h0a'])
+    base = [Bn >= 1, C >= 1, H >= 1, W >= 1, 4 * H >= 2 * m]
+    CUR.ctx = Ctx(base)
+    c = ctx()
+    P2 = z3.Int('P2')
+    if kind == 'cover':
+        hyp = [P2 >= 0, P2 < 4 * H]
+        goal = z3.Or(z3.And(P2 >= 2 * m, P2 < 4 * H - 2 * m, z3.Or(*[P2 % 4 == r for r in range(4)])),
+                     z3.Or(*[P2 == q for q in range(2 * m)]), z3.Or(*[P2 == 4 * H - q for q in range(1, 2 * m + 1)]))
+        return [solve.prove('LEMMA/qshift-PR-1d[%s]/pieces-cover-all-rows' % table, 'LEMMA', list(c.pc) + hyp, goal, SIZES)], {'m': m}
+    it = Interp()
+    x = CD.data_tensor('x', (Bn, C, 4 * H, W))
+    if canary:
+        from fractions import Fraction as Fr
+        f['g0a'] = list(f['g0a'])
+        f['g0a'][m // 2] += Fr(1, 1000)
+    F_ = {k_: conc_filter(v, k_) for k_, v in f.items()}
+    lo = CT.COLD(it, x, F_['h0b'], F_['h0a'], False, 'symmetric')
+    hi = CT.COLD(it, x, F_['h1b'], F_['h1a'], True, 'symmetric')
+    y = t_bin('+', CT.COLI(it, lo, F_['g0b'], F_['g0a'], False, 'symmetric'), CT.COLI(it, hi, F_['g1b'], F_['g1a'], True, 'symmetric'))
+    extra = {'interior': [P2 % 4 == k, P2 >= 2 * m, P2 < 4 * H - 2 * m], 'left': [P2 == k], 'right': [P2 == 4 * H - k]}[kind]
+    return verify.value_equal('LEMMA/qshift-PR-1d[%s]/%s=%d' % (table, kind, k), 'LEMMA', y, x, list(c.pc) + extra, SIZES, tol=tol), {'m': m}
+
+
+def qshift_pr_pieces(table):
+    from . import groups_tables as T
+    m = len(T.load(table)['h0a'])
+    return [('cover', 0)] + [('interior', r) for r in range(4)] + [('left', p) for p in range(2 * m)] + [('right', q) for q in range(1, 2 * m + 1)]
